@@ -368,7 +368,7 @@ func (e *Ev) requireClasses(cs ...string) {
 
 // saveViolation writes the replay file and records the violation.
 func (e *Ev) saveViolation(kind string, js []byte, msg string) {
-	dir := filepath.Join(verifRoot, "replays", e.prop)
+	dir := filepath.Join(envStr("VERIF_REPLAY_ROOT", filepath.Join(verifRoot, "replays")), e.prop)
 	os.MkdirAll(dir, 0o755)
 	fp := fingerprint(kind, js)
 	path := filepath.Join(dir, fmt.Sprintf("%s-%016x.json", kind, fp))
